@@ -1097,6 +1097,15 @@ impl RScenario {
         if matches!(self.prop, RProp::C02) && n > 512 && rng.chance(0.7) {
             n = rng.range(3, 64);
         }
+        // rarely: a long sequence, so that merged chunks pass 2^16 elements
+        let long = matches!(self.prop, RProp::C02 | RProp::C09 | RProp::C08) && rng.below(12000) == 0;
+        if long {
+            n = match tier {
+                Tier::Quick => rng.range(140_000, 300_000),
+                Tier::Thorough => rng.range(140_000, 1_000_000),
+            };
+            st.bump("probe.long_input_ge_140k");
+        }
         let (data, pair, meta): (Vec<(u64, u64)>, bool, String) = match self.prop {
             RProp::C02 | RProp::C11Scalar | RProp::C20Scalar | RProp::C18Scalar => {
                 let (d, m) = gen::scalar_c01(&mut rng, n);
@@ -1130,7 +1139,14 @@ impl RScenario {
                 (d.iter().map(|p| (p.0.to_bits(), p.1.to_bits())).collect(), true, format!("{:?} mode={}", m, mode))
             }
         };
-        let cfg = gen_cfg(&mut rng, n, self.prop);
+        let mut cfg = gen_cfg(&mut rng, n, self.prop);
+        if long {
+            cfg.policy = if rng.chance(0.6) { Policy::Length } else { Policy::Balanced };
+            cfg.threads = rng.pick(&[1usize, 2, 3, 4, 8]);
+            cfg.min_len = if rng.chance(0.5) { 1 } else { rng.range(1000, 70_000) };
+            cfg.max_pieces = 1;
+            cfg.pct = None;
+        }
         let (tree, gs) = generate(&mut rng, &cfg);
         st.sim_events += gs.ticks;
         st.add("fault.steal", gs.steals);
@@ -1433,6 +1449,7 @@ impl Scenario for RScenario {
             budget,
             r_edits,
             r_apply,
+            |t: &RTrace| t.data.len() + t.tree.nodes.len(),
             |t| {
                 let mut st = Stats::default();
                 self.execute(t, &mut st)
